@@ -525,18 +525,37 @@ def nt_refused(h):
 
 
 def plan_C06(ctx, rt):
-    return run_marmot(ctx, rt, invariants=[], properties=["ActC06"], view="C06", mc=MC_CORE, profiles=junk_profiles(),
-                      nontrivial=nt_refused,
-                      assumptions=ASSUME_MARMOT + ["bytes are not enumerated by TLC: the spec enumerates hostile-input CLASSES (bad kind, missing/"
-                                                    "duplicate/short/non-hex h tag, stale/future timestamp, unknown group, undecryptable content, NIP-44-"
-                                                    "wrapped junk under the right exporter secret, truncated and bit-flipped copies of real MLS payloads); "
-                                                    "the harness instantiates each class with seeded random mutations",
-                                                    "OpenMLS is built without debug assertions (its debug_assert on AEAD failure panics in debug builds)",
-                                                    "welcome / key-package / uniffi-string inputs are not covered by this check yet"],
-                      rule="membership histories with hostile events of 12 classes injected at random points and handed to random clients "
-                           "(any state: idle, pending commit, queued proposals, evicted, non-member); every call runs under catch_unwind; "
-                           "non-trivial = a hostile event was published and some call was refused")
-
+    if ctx.get("replay"):
+        rpj = json.load(open(ctx["replay"]))
+        if rpj.get("kind") == "tables":          # a replay file of the parser half
+            import plans_tables
+            known = plans_tables._known(rt)
+            return plans_tables._replay_tables(ctx, rt, rt.build_crate("htables"), plans_tables._dev(rt, known), rpj, "InvC15", known)
+    rc = run_marmot(ctx, rt, invariants=[], properties=["ActC06"], view="C06", mc=MC_CORE, profiles=junk_profiles(),
+                    nontrivial=nt_refused,
+                    assumptions=ASSUME_MARMOT + ["bytes are not enumerated by TLC: the spec enumerates hostile-input CLASSES (bad kind, missing/"
+                                                  "duplicate/short/non-hex h tag, stale/future timestamp, unknown group, undecryptable content, NIP-44-"
+                                                  "wrapped junk under the right exporter secret, truncated and bit-flipped copies of real MLS payloads); "
+                                                  "the harness instantiates each class with seeded random mutations",
+                                                  "OpenMLS is built without debug assertions (its debug_assert on AEAD failure panics in debug builds)",
+                                                  "key-package / welcome / extension / imeta inputs: every shape of the Tables.tla decision tables (hostile tag "
+                                                  "classes incl. multi-byte characters at byte-indexed cut points) is executed on the real parsers; uniffi "
+                                                  "string inputs are not covered"],
+                    rule="membership histories with hostile events of 12 classes and a hostile member's events injected at random points and handed "
+                         "to random clients (any state: idle, pending commit, queued proposals, evicted, non-member); every call runs under "
+                         "catch_unwind; non-trivial = a hostile event was published and some call was refused; plus every enumerated parser shape")
+    if rc != 0 or ctx.get("replay"):
+        return rc
+    # parser half (no state to leave unchanged: the claim is no panic and the table's refuse / accept answer)
+    import plans_tables
+    rc2, stats = plans_tables.parser_part_for_C06(ctx, rt)
+    evp = os.path.join(rt.EVID, "C06.json")
+    if os.path.exists(evp):
+        ev = json.load(open(evp))
+        ev["coverage"]["parser_tables"] = stats
+        ev["violations"] = ev.get("violations", 0) + (1 if rc2 == 1 else 0)
+        json.dump(ev, open(evp, "w"), indent=1)
+    return rc2
 
 def adversary_profiles():
     q = [dict(n=8, steps=80, backend="mixed", regime="causal", profile="members", adv=1, groups=2),
